@@ -52,6 +52,10 @@ def make_app_classes():
                               message.header.end_to_end_identifier, j)
             if self.behaviour == "raise":
                 raise RuntimeError("handler failure injected by the environment")
+            if self.behaviour == "raise_notroutable":
+                # the handler's own upstream request (proxy / lookup style) finds no peer: the library's own exception type
+                from diameter.node import NotRoutable
+                raise NotRoutable("no upstream peer (injected by the environment)")
             if self.behaviour == "answer":
                 self.send_answer(self.generate_answer(message, result_code=2001))
             if self.behaviour == "answer_norc":        # an answer that carries no Result-Code (e.g. Experimental-Result only)
